@@ -152,6 +152,31 @@ impl Explorer {
                 self.menu.enabled(&cluster, devs, self.bounds.max_devs)
             };
             if enabled.is_empty() {
+                // ---- end of a path: the run's closure (time passes / faults stop), if any
+                let mut cluster = cluster;
+                if self.menu.closure != crate::simkit::menu::Closure::None && cluster.stuck.is_none() {
+                    let before = cluster.oracle.violations.len();
+                    let extra = crate::simkit::cluster_ext::closure(&mut cluster, self.menu.closure)
+                        .await
+                        .map_err(|e| format!("closure after {history:?}: {e}"))?;
+                    self.shared.events_executed.fetch_add(extra.len() as u64, Ordering::Relaxed);
+                    let new: Vec<Violation> = cluster.oracle.violations[before..].to_vec();
+                    for v in new {
+                        if !self.relevant(&v) {
+                            continue;
+                        }
+                        if self.known_guards.iter().any(|g| g.matches(&v, &cluster)) {
+                            self.shared.pruned_known.fetch_add(1, Ordering::Relaxed);
+                            continue;
+                        }
+                        let mut h = history.clone();
+                        h.extend(extra.iter().cloned());
+                        let mut f = self.shared.found.lock().unwrap();
+                        if !f.iter().any(|(x, _)| x.property == v.property && x.what == v.what) {
+                            f.push((v, h));
+                        }
+                    }
+                }
                 self.shared.paths.fetch_add(1, Ordering::Relaxed);
                 let key = crate::simkit::cluster_ext::outcome_key(&cluster);
                 *self.shared.outcomes.lock().unwrap().entry(key).or_insert(0) += 1;
